@@ -14,7 +14,7 @@ impl ResultsFormatter for HtmlFormatter {
     }
 
     fn format_element(&mut self, _: &str, record: &str, _is_last: bool) -> Option<String> {
-        Some(format!("<td>{}</td>", record))
+        Some(format!("<td>{}</td>", escape_html(record)))
     }
 
     fn row_ended(&mut self) -> Option<String> {
@@ -24,6 +24,23 @@ impl ResultsFormatter for HtmlFormatter {
     fn footer(&mut self) -> Option<String> {
         Some("</table></body></html>".to_owned())
     }
+}
+
+fn escape_html(s: &str) -> String {
+    let mut result = String::with_capacity(s.len());
+
+    for c in s.chars() {
+        match c {
+            '&' => result.push_str("&amp;"),
+            '<' => result.push_str("&lt;"),
+            '>' => result.push_str("&gt;"),
+            '"' => result.push_str("&quot;"),
+            '\'' => result.push_str("&#39;"),
+            _ => result.push(c),
+        }
+    }
+
+    result
 }
 
 #[cfg(test)]
